@@ -360,7 +360,10 @@ again:
 		nextchar(s);
 		if (s->chr != '.') {
 			ungetc(s->chr, s->file);
-			s->loc = oldloc;
+			if (s->loc.line == oldloc.line)
+				s->loc = oldloc;
+			else
+				--s->loc.col;  /* a splice was consumed with the look-ahead: keep its line */
 			s->chr = '.';
 			return TPERIOD;
 		}
